@@ -69,3 +69,25 @@ From VModel Require Import PolicyM.
 From VProofs Require Import TieC06.
 Theorem c06_tie_policy_markers : [kex_strict_c; kex_strict_s] = src_policy_markers.
 Proof. exact tie_policy_markers. Qed.
+
+(* every decision of Policy.evaluate() as it reads now (T1c translation of the current source): size comparisons, marker condition, exact comparisons, subset loops,
+   pruning, CA-specified condition; and its error labels in source order *)
+Theorem c06_tie_size_bad : forall larger a e,
+  size_bad larger a e = src_policy_size_bad_0 larger a e /\ size_bad larger a e = src_policy_size_bad_1 larger a e /\ size_bad larger a e = src_policy_size_bad_2 larger a e.
+Proof. exact tie_size_bad. Qed.
+Theorem c06_tie_marker_missing : forall k peer,
+  ((mem kex_strict_s k && negb (mem kex_strict_s peer)) || (mem kex_strict_c k && negb (mem kex_strict_c peer))) = src_policy_marker_missing k peer.
+Proof. exact tie_marker_missing. Qed.
+Theorem c06_tie_exact_differs : forall a l,
+  negb (strs_eqb a l) = src_policy_exact_differs_0 a l /\ negb (strs_eqb a l) = src_policy_exact_differs_1 a l /\ negb (strs_eqb a l) = src_policy_exact_differs_2 a l
+  /\ negb (strs_eqb a l) = src_policy_exact_differs_3 a l /\ negb (strs_eqb a l) = src_policy_exact_differs_4 a l.
+Proof. exact tie_exact_differs. Qed.
+Theorem c06_tie_not_all_in : forall a l, not_all_in a l = src_policy_not_all_in a l.
+Proof. exact tie_not_all_in. Qed.
+Theorem c06_tie_pruned : forall p pr o, p_optional_host_keys p = Some o -> pruned_host_keys p pr = src_policy_pruned (pr_key pr) o.
+Proof. exact tie_pruned. Qed.
+Theorem c06_tie_ca_specified : forall t sz, (negb (String.eqb t "") && (0 <? sz))%Z = src_policy_ca_specified t sz.
+Proof. exact tie_ca_specified. Qed.
+Theorem c06_tie_error_labels :
+  map label_template (map e_field (snd (evaluate all_wrong_policy all_wrong_peer))) = dedup_adj src_policy_error_labels.
+Proof. exact tie_error_labels. Qed.
